@@ -50,6 +50,12 @@ func genScalar(t *rapid.T, c *ecref.Curve, label string) *big.Int {
 		z := rapid.IntRange(1, 3).Draw(t, label+"-zeros")
 		b := rapid.SliceOfN(rapid.Byte(), l-z, l-z).Draw(t, label+"-bytes")
 		d = new(big.Int).SetBytes(b)
+	case 5:
+		// public point with a leading zero byte in a coordinate
+		if zs := zeroCoordScalars(c); len(zs) > 0 {
+			return new(big.Int).Set(zs[rapid.IntRange(0, len(zs)-1).Draw(t, label+"-zerocoord")])
+		}
+		d = big.NewInt(5)
 	default:
 		b := rapid.SliceOfN(rapid.Byte(), l, l).Draw(t, label+"-bytes")
 		d = new(big.Int).SetBytes(b)
@@ -186,6 +192,37 @@ func sortedKeys[V any](m map[string]V) []string {
 var _ = core.FlagDefault
 
 func rapidConst() int { return 0 }
+
+var (
+	zeroCoordMu    sync.Mutex
+	zeroCoordCache = map[string][]*big.Int{}
+)
+
+// zeroCoordScalars returns a few scalars of the curve whose public point has an X or Y coordinate
+// with a leading zero byte (found by search; about one key in 128 is like this).
+func zeroCoordScalars(c *ecref.Curve) []*big.Int {
+	zeroCoordMu.Lock()
+	defer zeroCoordMu.Unlock()
+	if v, ok := zeroCoordCache[c.Name]; ok {
+		return v
+	}
+	var out []*big.Int
+	l := c.ByteLen()
+	x, y := c.Gx, c.Gy
+	for d := int64(1); d < 4000 && len(out) < 3; d++ {
+		if d > 1 {
+			x, y = c.Add(x, y, c.Gx, c.Gy)
+		}
+		if len(x.Bytes()) < l || len(y.Bytes()) < l {
+			if c.P.BitLen()%8 != 0 && len(x.Bytes()) == l-0 {
+				continue
+			}
+			out = append(out, big.NewInt(d))
+		}
+	}
+	zeroCoordCache[c.Name] = out
+	return out
+}
 
 // pkcs8Fixed returns a deterministic key of the named algorithm: pooled RSA
 // key or an EC key whose scalar is derived from n.
